@@ -332,7 +332,9 @@ func (handle *writeTxnHandle) Abort() {
 
 	txn.duration.Store(uint64(time.Since(txn.acquiredAt)))
 
+	verifHook("abort-before-unlock")
 	txn.smus.Unlock()
+	verifHook("abort-unlocked")
 	txn.db.metrics.WriteTxnDuration(
 		txn.handle,
 		txn.tableNames,
@@ -397,7 +399,9 @@ func (handle *writeTxnHandle) Commit() ReadTxn {
 	// Acquire the lock on the root tree to sequence the updates to it. We can acquire
 	// it after we've built up the new table entries above, since changes to those were
 	// protected by each table lock (that we're holding here).
+	verifHook("commit-before-rootlock")
 	db.mu.Lock()
+	verifHook("commit-rootlocked")
 
 	// Since the root may have changed since the pointer was last read in WriteTxn(),
 	// load it again and modify the latest version that we now have immobilised by
@@ -432,21 +436,26 @@ func (handle *writeTxnHandle) Commit() ReadTxn {
 	// Commit the transaction to build the new root tree and then
 	// atomically store it.
 	db.root.Store(&root)
+	verifHook("commit-stored")
 	db.mu.Unlock()
+	verifHook("commit-rootunlocked")
 
 	// Now that new root is committed, we can notify readers by closing the watch channels of
 	// mutated radix tree nodes in all changed indexes and on the root itself.
 	for _, txn := range txnToNotify {
 		txn.notify()
 	}
+	verifHook("commit-notified")
 
 	// With the root pointer updated, we can now release the tables for the next write transaction.
 	txn.smus.Unlock()
+	verifHook("commit-tables-unlocked")
 
 	// Notify table initializations
 	for _, ch := range initChansToClose {
 		close(ch)
 	}
+	verifHook("commit-init-closed")
 
 	txn.db.metrics.WriteTxnDuration(
 		txn.handle,
